@@ -176,18 +176,20 @@ def first_diff(path_a, path_b):
             off += len(x)
 
 
-def check_meta(pre, post, mapping, perms=True, times=True, xattrs=True, owner=False):
-    """C10 core for regular files: mode, mtime (ns), user xattrs, owner as requested."""
+def check_meta(pre, post, mapping, perms=True, times=True, xattrs=True, owner=False, xattr_exempt=()):
+    """C10 core for regular files: mode, mtime (ns), user xattrs, owner as requested.  xattr_exempt: sandbox-relative source or
+    destination paths of files whose attributes are not compared (an attribute call on exactly that file was made to fail)."""
     bad = []
     for m in mapping:
         r, d = m["rec"], post.get(m["dst"])
         if r["k"] != "f" or d is None or d["k"] != "f":
             continue
+        xattrs_here = xattrs and m["src"] not in xattr_exempt and m["dst"] not in xattr_exempt
         if perms and d["mode"] != r["mode"]:
             bad.append(("mode", "%s has mode %o, %s has %o" % (m["src"], r["mode"], m["dst"], d["mode"])))
         if times and d["mtime_ns"] != r["mtime_ns"]:
             bad.append(("mtime", "%s has mtime %d, %s has %d" % (m["src"], r["mtime_ns"], m["dst"], d["mtime_ns"])))
-        if perms and xattrs:
+        if perms and xattrs_here:
             for k, v in r.get("xattrs", {}).items():
                 if k.startswith("user.") and d.get("xattrs", {}).get(k) != v:
                     bad.append(("xattr", "%s has %s=%r, %s has %r" % (m["src"], k, v, m["dst"], d.get("xattrs", {}).get(k))))
